@@ -249,7 +249,7 @@ pub fn run(tier: &str, seed: u64) -> i32 {
     }
     // counters far beyond anything allocatable: a failed allocation aborts the process (it cannot be
     // caught), so these cases run in a child process
-    match std::env::current_exe() {
+    match Ok::<_, std::io::Error>(std::path::PathBuf::from("/proc/self/exe")) {
         Ok(exe) => {
             let out = std::process::Command::new(exe).args(["C18", "huge-child", "--seed", &seed.to_string()]).env("PV_C18_HUGE", "1").output();
             match out {
